@@ -14,6 +14,7 @@ func init() {
 		"(R8) the predicate's truth table over {blacklisted, has score entry, entry has an expiry} equals ¬blacklisted ∧ ¬(entry ∧ expiry) — exhaustive abstract interpretation; "+
 		"(R9) addPenalty accumulates old+score, stores a future expiry exactly under newScore >= MaxPenaltyScore, fresh entries carry no expiry; the sweep deletes an entry exactly under expiry set ∧ now > expiry; "+
 		"(R10) ban ⇒ disconnect: the ban edge of Peer.addPenalty/banPeer reaches Disconnect, and every multiaddr handed to them carries the /p2p/<id> component they parse; "+
+		"(R12) every access of the score and blacklist maps uses the same key function (net.IP.String()); "+
 		"(R11) penalty coverage in the message protocol: malformed envelope, unknown procedure and rate excess each reach a penalty, and every penalty call is control-dependent on a failure fact.",
 		runC18)
 }
@@ -112,6 +113,45 @@ func runC18(c *Ctx) {
 		} else {
 			c.Require("C18.R8 predicate-table", FuncKey(allowed)+" = ¬blacklisted ∧ ¬(entry ∧ expiry)", p.Pos(allowed.Pos()), fmt.Sprintf("truth table over %v (%d abstract inputs) equals the specification", atoms, ev), dis == "" && len(atoms) == 3, dis)
 		}
+	}
+
+	// ---- R12 one key function for the score/blacklist maps (writers and readers must agree)
+	{
+		n := 0
+		for _, fn := range p.OwnFuncs {
+			if !strings.HasPrefix(FuncKey(fn), "pkg/p2p.(*connectionGater).") || len(fn.Blocks) == 0 {
+				continue
+			}
+			tb := newTB()
+			chk := func(in ssa.Instruction, m, k ssa.Value, what string) {
+				mt := tb.of(m, 0)
+				if !(mt.Op == "field" && (mt.Sym == "peerScore" || mt.Sym == "blockedAddrs")) {
+					return
+				}
+				n++
+				kt := tb.of(k, 0)
+				ok := kt.Op == "call" && kt.Sym == "(net.IP).String"
+				if !ok && (kt.Op == "extract" && kt.Args[0].Op == "next") {
+					ok = true // key obtained by ranging over the same map
+				}
+				c.Require("C18.R12 one-key-function", FuncKey(fn)+": "+what+" "+mt.Sym, p.InstrPos(in), "score and blacklist maps are keyed by net.IP.String() everywhere (a reader keyed differently from the writer never finds the ban)", ok, "key: "+kt.String())
+			}
+			for _, b := range fn.Blocks {
+				for _, in := range b.Instrs {
+					switch x := in.(type) {
+					case *ssa.Lookup:
+						chk(x, x.X, x.Index, "lookup")
+					case *ssa.MapUpdate:
+						chk(x, x.Map, x.Key, "update")
+					case *ssa.Call:
+						if CalleeName(x.Common()) == "builtin:delete" {
+							chk(x, x.Common().Args[0], x.Common().Args[1], "delete")
+						}
+					}
+				}
+			}
+		}
+		c.MinInstances("C18.R12 one-key-function", n, 8)
 	}
 
 	// ---- R9 accumulation, ban threshold, sweep
